@@ -416,6 +416,12 @@ class World(object):
         self.check_state("dispatch")
         if not tasks:
             self.bump("dispatch_empty")
+            if not self.inflight and self.pending and self.status in ("running", "resuming") and self.c is not None:
+                # every action left at the provider is paused or waits for an answer, and nothing is
+                # offered: that is a resting point too ("paused ... following ... a paused or pending task")
+                self.bump("probe_rest_with_paused_actions_only")
+                self.report("C03", "quiescent_rest", "only paused/pending actions remain (%r), nothing on offer, workflow "
+                            "is %s" % (sorted(self.pending)[:3], self.status))
         return len(tasks)
 
     def start_task(self, t, st_before):
@@ -654,6 +660,11 @@ class World(object):
             # the action never got to run (it failed, expired or was canceled while queued)
             self.bump("fault_abend_before_running")
         elif a["state"] not in ("running", "pending", "canceling"):
+            aps = self.o.get("act_pause_seed")
+            if a["state"] == "paused" and a["item"] is None and aps and Keyed(aps).u("resuming_first", aid) < 0.5:
+                # a paused action is resumed: resuming, then running again, then its outcome
+                self.call("update_task_state", tid, route, events.ActionExecutionEvent("resuming"))
+                self.after_call("mark")
             a["state"] = "running"
             ev = events.ActionExecutionEvent("running") if a["item"] is None else events.TaskItemActionExecutionEvent(a["item"], "running")
             self.call("update_task_state", tid, route, ev)
@@ -670,10 +681,17 @@ class World(object):
                                                      accumulated_result=copy.deepcopy(it["results"]))
         if status in ("pending", "paused"):
             self.inflight.pop(aid, None)
-            a["state"] = "pending"
+            a["state"] = status
             self.pending[aid] = a
+            aps = self.o.get("act_pause_seed")
+            if status == "paused" and aps and Keyed(aps).u("pausing_first", aid) < 0.5:
+                # the action acknowledges the pause before it comes to rest
+                self.call("update_task_state", tid, route, events.ActionExecutionEvent("pausing"))
+                self.after_call("mark")
             self.call("update_task_state", tid, route, ev)
             self.after_call("pending")
+            if status == "paused":
+                self.bump("fault_act_paused")
             self.check_state("pending")
             return True
         self.inflight.pop(aid, None)
